@@ -16,9 +16,9 @@ import (
 
 // ---- deterministic unit alphabet for the exhaustive part ---------------------
 
-const c02Alphabet = 14
+const c02Alphabet = 15
 
-var c02Names = []string{"txXID", "txCommit", "txRollback", "txXID+ignorables", "ddl", "autoRows", "stmtDML", "rotate", "gtid", "anonGtid", "prevGtids", "heartbeat", "unknownEvent", "unknownStmt"}
+var c02Names = []string{"txXID", "txCommit", "txRollback", "txXID+ignorables", "ddl", "autoRows", "stmtDML", "rotate", "gtid", "anonGtid", "prevGtids", "heartbeat", "unknownEvent", "unknownStmt", "fileEndNoRotate"}
 
 func c02Table() hist.Table {
 	return hist.Table{DB: "d", Name: "t", ID: 7, Cols: []hist.Column{{Name: "tag", Type: refenc.TLong}, {Name: "v", Type: refenc.TVarchar, Len: 20, Nullable: true}}}
@@ -123,6 +123,12 @@ func (b *seqBuilder) add(sym int) {
 		u = hist.Unit{Kind: hist.UUnknownEvent, EvType: refenc.EvTxContext, Body: []byte{9, 9}, TS: b.t()}
 	case 13:
 		u = hist.Unit{Kind: hist.UUnknownStmt, Q: b.q("FLUSH TABLES")}
+	case 14:
+		b.file++
+		u = hist.Unit{Kind: hist.UFileEnd, NextFile: fmt.Sprintf("bin.%06d", b.file)}
+		if b.salt%2 == 0 {
+			u.EvType, u.TS = refenc.EvStop, b.t()
+		}
 	}
 	b.h.Units = append(b.h.Units, u)
 }
@@ -234,6 +240,47 @@ func checkBoundaries(c *E2ECase, tagged bool) (*attemptState, []hist.ExpTx, erro
 	return st, exp, nil
 }
 
+// CutCase is C02 part (4): a history whose stream is cut (connection closed or
+// EOF packet) in front of packet At, possibly in the middle of a transaction.
+type CutCase struct {
+	E    E2ECase
+	At   int
+	Kind string // "fin" or "eof"
+}
+
+// checkCut: exactly the transactions whose commit event was sent are delivered;
+// in particular nothing of a transaction that was cut before its commit.
+func checkCut(c *CutCase) (int, int, error) {
+	l, start, su, err := c.E.layout()
+	if err != nil {
+		return 0, 0, fmt.Errorf("harness: %v", err)
+	}
+	exp := l.Expected(start, su)
+	ss, err := newSession(c.E.H.Tables, 21, start)
+	if err != nil {
+		return 0, 0, fmt.Errorf("harness: %v", err)
+	}
+	defer ss.close()
+	st := ss.run(attempt{l: l, pacing: c.E.Pacing, mutate: applyFault(l, Fault{Kind: c.Kind, At: c.At})})
+	st.drainLib()
+	if err := st.panicErr(); err != nil {
+		return 0, 0, err
+	}
+	if !st.served {
+		return 0, 0, fmt.Errorf("harness: not servable")
+	}
+	before := commitsIn(l, st.evIdx, c.At)
+	if len(st.got) > before {
+		extra := st.got[before]
+		return before, len(exp), fmt.Errorf("the stream was cut (%s) in front of packet %d, after %d commit events, but %d transactions were delivered; the extra one has %d events and labels %+v..%+v: changes were handed over before their commit event was read",
+			c.Kind, c.At, before, len(st.got), len(extra.Events), extra.NowPosition, extra.NextPosition)
+	}
+	if len(st.got) < before {
+		return before, len(exp), fmt.Errorf("the stream was cut (%s) in front of packet %d, after %d commit events, but only %d transactions were delivered [stream err %v]", c.Kind, c.At, before, len(st.got), st.streamErr)
+	}
+	return before, len(exp), compareTxs(st.got, exp[:before], false)
+}
+
 func checkSeq(c SeqCase) error {
 	e := &E2ECase{H: seqHistory(c.Seq, c.Variant), Pacing: c.Pacing}
 	_, _, err := checkBoundaries(e, true)
@@ -254,6 +301,14 @@ func init() {
 			return err
 		}
 		_, _, err := checkBoundaries(&c, false)
+		return err
+	})
+	registerReplay("c02cut", func(raw json.RawMessage) error {
+		var c CutCase
+		if err := json.Unmarshal(raw, &c); err != nil {
+			return err
+		}
+		_, _, err := checkCut(&c)
 		return err
 	})
 	registerReplay("c02case", func(raw json.RawMessage) error {
@@ -349,6 +404,7 @@ func TestC02(t *testing.T) {
 				cls = append(cls, "lockstep")
 			}
 			rec.Case(nontrivialSeq(h), c, cls...)
+			journal("C02", "c02seq", c)
 			if err := checkSeq(c); err != nil {
 				failed++
 				p := rec.Violation("c02seq", c, "", err)
@@ -375,6 +431,34 @@ func TestC02(t *testing.T) {
 	o.BigBase = false
 	o.Col = gen.ColumnOpt{Only: []byte{refenc.TLong, refenc.TVarchar, refenc.TTiny, refenc.TLongLong}, NoHeavy: true}
 	rapidCheck(t, func(rt *rapid.T) {
+		if rapid.IntRange(0, 2).Draw(rt, "part_cut") == 0 {
+			// (4) the stream ends in front of a drawn packet, possibly inside a transaction
+			c := &CutCase{E: E2ECase{H: gen.History(rt, o), Pacing: rapid.IntRange(0, 1).Draw(rt, "pacing")}, Kind: rapid.SampledFrom([]string{"fin", "eof"}).Draw(rt, "cut_kind")}
+			l, start, _, err := c.E.layout()
+			if err != nil {
+				rt.Skip(err.Error())
+			}
+			payloads, evIdx, _ := l.Served(start.File, start.Off)
+			c.At = rapid.IntRange(0, len(payloads)).Draw(rt, "cut_at")
+			// is the cut inside a transaction?
+			inside := false
+			if c.At > 0 && c.At <= len(evIdx) && evIdx[c.At-1] >= 0 {
+				e := l.Events[evIdx[c.At-1]]
+				inside = !e.Commit && c.E.H.Units[e.Unit].Kind.Commits()
+			}
+			cls := []string{"cut", "cut/" + c.Kind}
+			if inside {
+				cls = append(cls, "cut/inside-transaction")
+			}
+			journal("C02", "c02cut", c)
+			before, total, err := checkCut(c)
+			rec.Case(inside && before >= 1 && total >= 2, c, cls...)
+			if err != nil {
+				rec.Violation("c02cut", c, "", err)
+				rt.Fatalf("C02 violation: %v", err)
+			}
+			return
+		}
 		c := &E2ECase{H: gen.History(rt, o), Pacing: rapid.IntRange(0, 1).Draw(rt, "pacing")}
 		cls := []string{"random-history"}
 		if c.Pacing == PaceLockStep {
@@ -394,6 +478,7 @@ func TestC02(t *testing.T) {
 		if nt {
 			rec.Sample(c)
 		}
+		journal("C02", "c02hist", c)
 		if _, _, err := checkBoundaries(c, false); err != nil {
 			rec.Violation("c02hist", c, "", err)
 			rt.Fatalf("C02 violation: %v", err)
